@@ -124,7 +124,8 @@ def prog_coq(prog):
     devs = clist([f"({cstr(v)}, ({cstr(k)}, {'true' if r else 'false'}))" for v, k, r in prog.devs])
     sigs = clist([f"({cstr(k)}, {clist([cstr(x) for x in move_prog.TWEEZERS[k][2]])})" for k in move_prog.TWEEZERS])
     subs_c = clist([f"({cstr(n)}, mksub {clist([cstr(p) for p, _ in ps])} {stmts_coq(b, [])})" for n, ps, b in subs])
-    return f"(mkprog {devs} {sigs} {subs_c} {clist([cstr(p) for p, _ in prog.params])} {body})"
+    extra = [cstr("ci"), cstr("cz")] if prog.spec_consts else []       # int constants of the spec: extra inputs of the model
+    return f"(mkprog {devs} {sigs} {subs_c} {clist([cstr(p) for p, _ in prog.params] + extra)} {body})"
 
 
 def route_name(o, post):
@@ -172,7 +173,7 @@ def run(ctx):
     ntup = ctx.pick(3, 5)
     labels_cases = []
     for i in range(nprog):
-        prog = move_prog.gen_move_prog(ctx.rng, autos=False, subs=True)
+        prog = move_prog.gen_move_prog(ctx.rng, autos=False, subs=True, spec_consts=True)
         for t in prog.tags:
             ctx.hist("program_features", t)
         src = move_prog.render(prog)
@@ -187,7 +188,7 @@ def run(ctx):
             r = move_native.run_native(nsrc, args, S, kernel_ns=kernel_ns)
             refs[args] = r
             ctx.hist("reference", "runs" if r[0] == "ok" else "raises")
-            zargs = clist([cZ(int(a)) for a in args])
+            zargs = clist([cZ(int(a)) for a in args] + ([cZ(S.int_constants["dup"]), cZ(S.int_constants["zero"])] if prog.spec_consts else []))
             labels_cases.append((pc, zargs, " | ".join(r[2]) if r[0] == "ok" else "ERR", src, args))
         if i < 2:
             a0 = argsets[0]
@@ -217,9 +218,10 @@ def run(ctx):
                 if st != "ok" or got != want:
                     k = next((j for j in range(min(len(got), len(want))) if got[j] != want[j]), min(len(got), len(want)))
                     symptom = "fewer events" if len(got) < len(want) else "more events" if len(got) > len(want) else "different event"
-                    if st == "ok" and len(got) < len(want) and got == want[:len(got)] and len(got) in ref[3]:
-                        # the log stops exactly where a subroutine took an early return
-                        symptom = "truncated-at-early-return-of-subroutine"
+                    if st == "ok" and k in ref[3]:
+                        # the logs agree up to the point where a subroutine took an early return and part ways exactly there
+                        # (the log is truncated there, or continues in an enclosing closure that the return was inlined into)
+                        symptom = "diverges-at-early-return-of-subroutine"
                     ctx.fail({"kind": "events-differ", "aggressive_option": o["aggressive"], "post_pass": post, "symptom": symptom, "route": rn},
                              {"src": src, "route": rn, "args": repr(args), "expected": ref[2], "got_events": len(got)},
                              f"route {rn} args {args}: {len(got)} events vs {len(want)} in the source evaluation; first difference at {k}: "
